@@ -79,21 +79,21 @@ type Thread struct {
 	Name   string
 	Client bool
 
-	resume chan struct{}
-	done   bool
-	pt     *point
-	Panic  interface{}
+	resume     chan struct{}
+	done       bool
+	pt         *point
+	Panic      interface{}
 	PanicStack string
 }
 
 // Step is one scheduling decision recorded in the trace.
 type Step struct {
-	Thread  int      `json:"t"`
-	Kind    string   `json:"k"`
-	Where   string   `json:"w"`
-	Enabled []int    `json:"e"`
-	Choice  int      `json:"c"` // index into Enabled (canonical order)
-	RunningEnabled bool `json:"r"` // the previously running thread was still enabled (switching away = preemption)
+	Thread         int    `json:"t"`
+	Kind           string `json:"k"`
+	Where          string `json:"w"`
+	Enabled        []int  `json:"e"`
+	Choice         int    `json:"c"` // index into Enabled (canonical order)
+	RunningEnabled bool   `json:"r"` // the previously running thread was still enabled (switching away = preemption)
 }
 
 type Waiter struct {
